@@ -18,7 +18,7 @@ C09_CTRL = {"cx": (0, 2), "cy": (0, 2), "cz": (0, 2), "ch": (0, 2), "ccx": (0, 3
             "cswap": (0, 3), "crx": (1, 2), "cry": (1, 2), "ccz": (0, 3), "cccx": (0, 4), "ccu1": (1, 3), "ccrz": (1, 3),
             "crxx": (1, 3), "cryy": (1, 3), "crzz": (1, 3), "ci_swap": (0, 3), "csqrt_swap": (0, 3), "csqrt_i_swap": (0, 3),
             "ccswap": (0, 4), "ccy": (0, 3), "cch": (0, 3)}
-ANGLE_TEXT = ["0", "pi/2", "(-pi/2)", "pi", "3*pi/2", "2*pi+0.3", "1.23456", "(-0.7)", "7.5"]
+ANGLE_TEXT = ["0", "pi/2", "(-pi/2)", "pi", "3*pi/2", "2*pi+0.3", "1.23456", "(-0.7)", "7.5", "2*pi", "(-2*pi)", "4*pi", "6.283185307179586"]
 
 
 def angle_expr(rng, tier):
@@ -26,7 +26,9 @@ def angle_expr(rng, tier):
     table = {"0": ("num", "0"), "pi/2": ("div", ("var", "pi"), ("num", "2")), "(-pi/2)": ("neg", ("div", ("var", "pi"), ("num", "2"))),
              "pi": ("var", "pi"), "3*pi/2": ("div", ("mul", ("num", "3"), ("var", "pi")), ("num", "2")),
              "2*pi+0.3": ("add", ("mul", ("num", "2"), ("var", "pi")), ("num", "0.3")), "1.23456": ("num", "1.23456"),
-             "(-0.7)": ("neg", ("num", "0.7")), "7.5": ("num", "7.5")}
+             "(-0.7)": ("neg", ("num", "0.7")), "7.5": ("num", "7.5"),
+             "2*pi": ("mul", ("num", "2"), ("var", "pi")), "(-2*pi)": ("neg", ("mul", ("num", "2"), ("var", "pi"))),
+             "4*pi": ("mul", ("num", "4"), ("var", "pi")), "6.283185307179586": ("num", "6.283185307179586")}
     return table[t]
 
 
@@ -167,6 +169,23 @@ def c11_cases(rng, tier):
     out = []
     for x in (False, True, False):
         out.append({"chunks": [twice], "seed": 17, "xor": x})
+    # runs of adjacent measurements whose qubit order and classical-bit order are crossed (bit form, register form,
+    # a barrier in between), the measured qubits holding different values; a condition afterwards reads the result
+    X = lambda r, i: ("apply", "x", [("q", r, i)], [])
+    M = lambda q, c: ("measure", q, c)
+    crossed = [
+        [("qreg", "q", 2), ("creg", "c", 2), X("q", 0), M(("q", "q", 0), ("q", "c", 1)), M(("q", "q", 1), ("q", "c", 0)),
+         ("if", "c", 2, X("q", 1))],
+        [("qreg", "a", 1), ("qreg", "b", 1), ("creg", "c", 1), ("creg", "d", 1), X("b", 0), M(("r", "a"), ("r", "d")), M(("r", "b"), ("r", "c")),
+         ("if", "c", 1, X("a", 0))],
+        [("qreg", "q", 3), ("creg", "c", 3), X("q", 0), X("q", 2), M(("q", "q", 2), ("q", "c", 0)), ("barrier", ("r", "q")),
+         M(("q", "q", 0), ("q", "c", 2)), M(("q", "q", 1), ("q", "c", 1)), ("if", "c", 5, X("q", 1))],
+        [("qreg", "q", 3), ("creg", "c", 3), X("q", 1), M(("q", "q", 1), ("q", "c", 2)), M(("q", "q", 2), ("q", "c", 1)),
+         M(("q", "q", 0), ("q", "c", 0)), ("if", "c", 4, X("q", 0))],
+    ]
+    for prog in crossed:
+        for x in (False, True):
+            out.append({"chunks": [prog], "seed": 23, "xor": x})
     for c in cs:
         out.append(c)
         if rng.random() < 0.34:
@@ -247,6 +266,14 @@ def c13_mutants(rng, nodes, lay):
     out.append(("undeclared creg in condition", ins(pos(), ("if", "zz", 0, g1(("q", qn, 0)))), ("NoCReg", "zz")))
     out.append(("index beyond register", ins(pos(), g1(("q", qn, qs))), ("IdxOutOfRange", qn, qs)))
     out.append(("index beyond creg", ins(pos(), ("measure", ("q", qn, 0), ("q", cn, cs_ + 2))), ("IdxOutOfRange", cn, cs_ + 2)))
+    # indices far beyond the register: at and around the machine-word width and its multiples (a shift amount taken
+    # modulo 64 would fold them back into the register), and at the edge of 32-bit integers
+    far = rng.choice([63, 64, 64 + rng.randrange(qs), 65, 127, 128, 128 + rng.randrange(qs), 192, 256, 1000, 4096, 2 ** 31 - 1])
+    out.append(("index far beyond register", ins(pos(), g1(("q", qn, far))), ("IdxOutOfRange", qn, far)))
+    farc = rng.choice([64, 64 + rng.randrange(cs_), 128, 128 + rng.randrange(cs_), 4096, 2 ** 31 - 1])
+    out.append(("index far beyond creg", ins(pos(), ("measure", ("q", qn, 0), ("q", cn, farc))), ("IdxOutOfRange", cn, farc)))
+    farr = 64 + rng.randrange(qs)
+    out.append(("index far beyond register in reset", ins(pos(), ("reset", ("q", qn, farr))), ("IdxOutOfRange", qn, farr)))
     out.append(("duplicate qreg", ins(pos(), ("qreg", qn, 1)), ("DupQReg", qn, qs)))
     out.append(("duplicate creg", ins(pos(), ("creg", cn, 1)), ("DupCReg", cn, cs_)))
     out.append(("qreg named like a creg", ins(pos(), ("qreg", cn, 1)), ("DupCReg", cn, cs_)))
@@ -590,6 +617,27 @@ def c18_cases(rng, tier):
                          ("measure", ("r", "q"), ("r", "c"))]
                 sessions.append({"chunks": [start] + [failing] * times + [contn], "bad": list(range(1, 1 + times)), "seed": 8,
                                  "rule": "failure inside a gate body (%s)" % kind, "position": times})
+    # a rejected chunk defines a gate (directly, or the inner gate of an accepted outer one) and calls it successfully
+    # before the failing statement; a later chunk defines the same name with another body and makes the same call
+    fooX = ("gate", "foo", ["a"], [], [("apply", "x", [A], [])])
+    fooH = ("gate", "foo", ["a"], [], [("apply", "h", [A], [])])
+    rotA = ("gate", "rot", ["a"], ["t"], [("apply", "rx", [A], [("div", ("var", "t"), ("num", "2"))])])
+    rotB = ("gate", "rot", ["a"], ["t"], [("apply", "ry", [A], [("var", "t")])])
+    base = [("qreg", "q", 2), ("creg", "c", 2)]
+    zzbad = ("apply", "h", [("q", "nowhere", 0)], [])
+    meas = ("measure", ("r", "q"), ("r", "c"))
+    sessions.append({"chunks": [base, [fooX, ("apply", "foo", [Q0], []), zzbad], [fooH, ("apply", "foo", [Q0], []), meas]],
+                     "bad": [1], "seed": 9, "rule": "stale definition from a rejected chunk", "position": 0})
+    sessions.append({"chunks": [base, [rotA, ("apply", "rot", [Q1], [("var", "pi")]), zzbad],
+                                [rotB, ("apply", "rot", [Q1], [("var", "pi")]), meas]],
+                     "bad": [1], "seed": 9, "rule": "stale definition from a rejected chunk", "position": 1})
+    wrap = ("gate", "wrap", ["a"], [], [("apply", "foo", [A], []), ("apply", "s", [A], [])])
+    sessions.append({"chunks": [base + [("apply", "h", [Q0], [])], [fooX, wrap, ("apply", "wrap", [Q0], []), zzbad],
+                                [fooH, wrap, ("apply", "wrap", [Q0], []), meas]],
+                     "bad": [1], "seed": 9, "rule": "stale definition from a rejected chunk", "position": 2})
+    sessions.append({"chunks": [base, [fooX, ("apply", "foo", [Q0], []), zzbad], [fooX, ("apply", "foo", [Q0], []), zzbad],
+                                [fooH, ("apply", "foo", [Q0], []), ("apply", "foo", [Q1], []), meas]],
+                     "bad": [1, 2], "seed": 9, "rule": "stale definition from a rejected chunk", "position": 3})
     # the failed attempt is the first thing the session sees (nothing accepted yet), once and twice in a row, in both
     # measurement modes; the continuation measures a qubit twice into the same bit, which tells the modes apart
     twice = [("qreg", "q", 2), ("creg", "c", 2), ("apply", "x", [("q", "q", 0)], []), ("measure", ("q", "q", 0), ("q", "c", 0)),
@@ -792,6 +840,23 @@ def c12_strings(rng, tier):
                                        % (formal, nm, inner, formal, k, qs))
                 else:
                     adversarial.append("qreg q[%d]; creg c[1]; if (c==0) %s(%s) %s; measure q[0] -> c[0];" % (k, nm, pars, qs))
+    # tiny angles of every parametrised gate (a controlled phase of a wide QFT is pi/2^k) and the built-in qft on
+    # registers too wide to execute (only interpreted)
+    for k in list(range(18, 34)) + [40, 52, 60, 1000]:
+        for nm, qs in (("cu1", "q[0], q[1]"), ("u1", "q[0]"), ("crz", "q[0], q[1]"), ("rx", "q[1]"), ("ccu1", "q[0], q[1], q[2]")):
+            if k > 34 and nm != "cu1":
+                continue
+            adversarial.append("qreg q[3]; creg c[1]; h q; %s(%spi/2^%d) %s; measure q[0] -> c[0];" % (nm, rng.choice(["", "-"]), k, qs))
+    adversarial += ["qreg q[3]; creg c[1]; cu1(0.00000005) q[0], q[1]; measure q[0] -> c[0];", "qreg q[3]; cu1(1e-300) q[0], q[1];",
+                    "qreg q[3]; cu1(5e-324) q[0], q[1];", "qreg q[2]; gate g(l) a, b { cu1(l/2^26) a, b; } g(pi) q[0], q[1];"]
+    for w in (13, 20, 25, 26, 27, 30, 40, 63):
+        adversarial.append("qreg q[%d]; qft q;" % w)
+        adversarial.append("qreg q[%d]; QFT q; h q[0];" % w)
+    adversarial.append("qreg a[20]; qreg b[20]; qft a, b;")
+    # a long run of leading c with as many operands (the prefix is stripped one letter at a time)
+    for k in (10, 40, 62, 70, 100, 200, 300, 400, 1000):
+        adversarial.append("qreg q[2]; %sx %s;" % ("c" * k, ", ".join(["q[0]"] * (k + 1))))
+        adversarial.append("qreg q[63]; %sx %s;" % ("c" * k, ", ".join("q[%d]" % (i % 63) for i in range(k + 1))))
     out += [(t, None) for t in adversarial]
     # operand / parameter counts changed at random call sites, top level and inside gate bodies
     def bump(st):
